@@ -443,7 +443,7 @@ fn main() {
     let spec = Spec {
         property: "C18",
         classes: CLASSES,
-        required: &["conversion", "stale_allowed", "reloaded", "fresh_thread", "second_thread", "fallback_zone", "file_zone", "rule_zone", "changed_within_window", "public_clock_replay"],
+        required: &["conversion", "reloaded", "fresh_thread", "second_thread", "fallback_zone", "file_zone", "rule_zone", "changed_within_window", "public_clock_replay"],
         rule: "one process, the real Local through its public API, two persistent worker threads (each with its own thread-local cache) plus fresh-thread conversions; event menu of 18: set TZ to one of 12 values {unset, empty, :/abs/file, /abs/file, zoneinfo-relative name, :name, fixed POSIX rule, the same rule behind a colon, alternating POSIX rule, garbage, :/nonexistent, the name with a trailing space}, advance the (guarded, mock) clock by 0.6 s or 1.0 s, convert on thread A / B / a fresh thread (a conversion probes 4 fixed instants in both directions inside one step, so its zone signature is observed); ALL event sequences of length <= k ending in a conversion, from four start states (initial TZ unset / a rule, thread A with or without an existing cache), each executed from scratch; oracle: the signature must be exactly that of one zone, namely the zone of a TZ value held at some moment within the last second before the conversion (exactly the current value for a thread's first conversion or when nothing changed for >= 1 s); a decoy file with a zoneinfo-relative name sits in the working directory; a stride of histories is replayed without the clock seam, with real sleeps",
         assumptions: &["no preemption inside a conversion (getenv/setenv are not interceptable and concurrent use is undefined behaviour)", "the system zone of this sandbox is Etc/UTC, so 'system zone' and the final UTC fallback are observationally equal; private mount namespaces with another /etc/localtime are attempted in the thorough tier and skipped with a note if unshare is refused"],
     };
